@@ -106,7 +106,7 @@ func c15Observe(doc string, single bool, verifyDir string, massive bool) c15Obs 
 	ob.walkErr = errStr(o.Err)
 	if verifyDir != "" {
 		vo := Guard(func() error {
-			return gtree.VerifyFromMarkdown(strings.NewReader(doc), gtree.WithTargetDir(verifyDir), gtree.WithStrictVerify())
+			return gtree.VerifyFromMarkdown(MDReader(doc), gtree.WithTargetDir(verifyDir), gtree.WithStrictVerify())
 		})
 		if vo.Panic != nil {
 			ob.verify = "PANIC"
@@ -149,7 +149,7 @@ func evalC15(c *Ctx, cs *Case) {
 		if err == nil {
 			defer jail.Remove()
 			mo := Guard(func() error {
-				return gtree.MkdirFromMarkdown(strings.NewReader(canon), gtree.WithTargetDir(jail.Target), gtree.WithFileExtensions([]string{".gz", "b"}))
+				return gtree.MkdirFromMarkdown(MDReader(canon), gtree.WithTargetDir(jail.Target), gtree.WithFileExtensions([]string{".gz", "b"}))
 			})
 			if mo.Err == nil && mo.Panic == nil {
 				canonSnap, _ = mon.Snap(jail.Target)
@@ -231,7 +231,7 @@ func evalC15(c *Ctx, cs *Case) {
 			j2, err := mon.NewJail(c.TmpDir, true)
 			if err == nil {
 				mo := Guard(func() error {
-					return gtree.MkdirFromMarkdown(strings.NewReader(doc), gtree.WithTargetDir(j2.Target), gtree.WithFileExtensions([]string{".gz", "b"}))
+					return gtree.MkdirFromMarkdown(MDReader(doc), gtree.WithTargetDir(j2.Target), gtree.WithFileExtensions([]string{".gz", "b"}))
 				})
 				snap, _ := mon.Snap(j2.Target)
 				c.Eval(gen.HashString(fkey+"\x00mkdir"+sp.String()), nontrivial)
